@@ -466,6 +466,20 @@ pub fn run(tier: Tier) -> i32 {
         rep.add_sweep("many-half-open", sizes.len() as u64, sizes.len() as u64, sizes.len() as u64, vec![format!("{:?} half-open sessions (valid tokens, 10 s to live): the first and the last admitted one still complete, all vanish at token expiry, an honest client connects afterwards ({} library calls)", sizes, steps)]);
         rep.transitions += steps;
     }
+    // recovery class: a client returns from an address whose earlier session ended and whose slot was re-used
+    {
+        let cases = return_cases();
+        let res = crate::explore::par_cases(cases.len(), |i| return_case(cases[i].0, cases[i].1, cases[i].2, cases[i].3));
+        let mut steps = 0u64;
+        for (i, r) in res.into_iter().enumerate() {
+            match r {
+                Ok(n) => steps += n,
+                Err(v) => rep.violation("return-after-slot-reuse", v, J::obj().set("kind", J::s("return")).set("case", J::i(i as u64))),
+            }
+        }
+        rep.add_sweep("return-after-slot-reuse", cases.len() as u64, cases.len() as u64, 3, vec![format!("{} cases (how X's session ended: kick / time-out / disconnect datagram) x (same id / new id returns from X's address) x (2, 3, 8 slots) x (Y connected before / after X left): the returning handshake completes, lookups and payload routing name the right sessions ({} library calls)", cases.len(), steps)]);
+        rep.transitions += steps;
+    }
     rep.finish()
 }
 
@@ -581,6 +595,137 @@ pub fn pending_scale_case(n: usize) -> Result<u64, Violation> {
     Ok(steps + 6)
 }
 
+/// Recovery class: client X (address A) connects and its session ends in one of three ways; another client Y takes the
+/// freed slot; then somebody connects from address A again (X's id with a fresh token, or a new id). There is room, so
+/// the handshake must complete, Y must be undisturbed and payloads must be routed to the right sessions.
+/// `end`: 0 = server.disconnect(id), 1 = time-out, 2 = the client's disconnect datagram
+pub fn return_case(end: usize, same_id: bool, slots: usize, y_before_end: bool) -> Result<u64, Violation> {
+    use crate::nc::{self, make_token_wide, new_client, new_server, server_addr, wide_addr, TokenSpec, SR};
+    use std::time::Duration;
+    let public = vec![server_addr(0)];
+    let mut server = new_server(slots, public.clone(), Duration::ZERO);
+    let bad = |sig: &str, msg: String| Violation::new(format!("C18/return-after-slot-reuse/{}", sig), format!("session of X ended by {}, {} slots, {}: {}", ["server.disconnect", "time-out", "client disconnect"][end], slots, if same_id { "same id returns" } else { "new id from the same address" }, msg));
+    let mk = |id: u64, salt: u32| {
+        let mut sp = TokenSpec::new(id, 0, public.clone());
+        sp.expire = 600;
+        sp.timeout = 5;
+        make_token_wide(&sp, salt)
+    };
+    let dt = Duration::from_millis(250);
+    let mut calls = 0u64;
+    let mut hs = |server: &mut renetcode::NetcodeServer, id: u64, salt: u32, addr_k: u32, calls: &mut u64| -> Result<Option<renetcode::NetcodeClient>, Violation> {
+        let mut c = new_client(Duration::ZERO, &mk(id, salt));
+        for _ in 0..4 {
+            if let Some((p, _)) = nc::cli_update(&mut c, dt)? {
+                let r = nc::srv_process(server, wide_addr(addr_k), &p)?;
+                *calls += 2;
+                if let Some((_, b)) = r.reply() {
+                    nc::cli_process(&mut c, b)?;
+                }
+            }
+            if c.is_connected() && server.is_client_connected(id) {
+                return Ok(Some(c));
+            }
+        }
+        Ok(None)
+    };
+    let (xa, ya) = (1u32, 2u32);
+    let mut x = hs(&mut server, 100, 1, xa, &mut calls)?.ok_or_else(|| bad("fixture", "X did not connect".into()))?;
+    let mut y = None;
+    if y_before_end {
+        y = Some(hs(&mut server, 200, 2, ya, &mut calls)?.ok_or_else(|| bad("fixture", "Y did not connect".into()))?);
+    }
+    // X's session ends
+    match end {
+        0 => {
+            let s = &mut server;
+            let r = crate::link::guard("NetcodeServer::disconnect", || nc::own(s.disconnect(100)))?;
+            if !matches!(r, SR::Disconnected { client_id: 100, .. }) {
+                return Err(bad("fixture", format!("disconnect(100) gave {}", r.kind())));
+            }
+        }
+        1 => {
+            // Y (if there) keeps talking, X is silent for 6 s
+            for _ in 0..24 {
+                server.update(dt);
+                for id in server.clients_id() {
+                    let r = nc::srv_update_client(&mut server, id)?;
+                    if let (SR::Send { bytes, .. }, Some(yc)) = (&r, y.as_mut()) {
+                        if id == 200 {
+                            nc::cli_process(yc, bytes)?;
+                        }
+                    }
+                }
+                if let Some(yc) = y.as_mut() {
+                    if let Some((p, _)) = nc::cli_update(yc, dt)? {
+                        nc::srv_process(&mut server, wide_addr(ya), &p)?;
+                    }
+                }
+                calls += 4;
+            }
+            if server.is_client_connected(100) {
+                return Err(bad("silent-client-not-timed-out", "X sent nothing for 6 s (time-out 5 s) and is still connected".into()));
+            }
+        }
+        _ => {
+            let xc = &mut x;
+            let d = crate::link::guard("NetcodeClient::disconnect", || xc.disconnect().map(|(_, p)| p.to_vec()).ok())?.ok_or_else(|| bad("fixture", "no disconnect datagram".into()))?;
+            let r = nc::srv_process(&mut server, wide_addr(xa), &d)?;
+            if !matches!(r, SR::Disconnected { client_id: 100, .. }) {
+                return Err(bad("fixture", format!("disconnect datagram gave {}", r.kind())));
+            }
+        }
+    }
+    if !y_before_end {
+        // Y takes the slot X left
+        y = Some(hs(&mut server, 200, 2, ya, &mut calls)?.ok_or_else(|| bad("handshake-did-not-complete", "Y could not connect although a slot was free".into()))?);
+    }
+    // somebody returns from X's address
+    let rid = if same_id { 100 } else { 300 };
+    let mut ret = match hs(&mut server, rid, 3, xa, &mut calls)? {
+        Some(c) => c,
+        None => {
+            return Err(bad("handshake-did-not-complete", format!("{} of {} clients connected, but the client returning from {} (id {}) does not get connected", server.connected_clients(), slots, wide_addr(xa), rid)));
+        }
+    };
+    // both sessions are the right ones
+    let mut yc = y.take().unwrap();
+    for (id, addr_k, c) in [(200u64, ya, &mut yc), (rid, xa, &mut ret)] {
+        if server.client_addr(id) != Some(wide_addr(addr_k)) {
+            return Err(bad("lookup-by-id-wrong-address", format!("client_addr({}) = {:?}", id, server.client_addr(id))));
+        }
+        let body = format!("to-{}", id).into_bytes();
+        let s = &mut server;
+        let out = crate::link::guard("generate_payload_packet", || s.generate_payload_packet(id, &body).map(|(a, p)| (a, p.to_vec())).ok())?;
+        let Some((a, p)) = out else { return Err(bad("payload-for-connected-id-refused", format!("id {}", id))) };
+        if a != wide_addr(addr_k) || nc::cli_process(c, &p)? != Some(body.clone()) {
+            return Err(bad("payload-routed-to-wrong-session", format!("payload for id {} went to {} / could not be opened by its client", id, a)));
+        }
+        let up = format!("from-{}", id).into_bytes();
+        let (_, q) = crate::link::guard("NetcodeClient::generate_payload_packet", || c.generate_payload_packet(&up).map(|(a, p)| (a, p.to_vec())).ok())?.ok_or_else(|| bad("client-cannot-send", format!("id {}", id)))?;
+        match nc::srv_process(&mut server, wide_addr(addr_k), &q)? {
+            SR::Payload { client_id, bytes } if client_id == id && bytes == up => {}
+            other => return Err(bad("payload-attributed-to-wrong-id", format!("payload of id {} surfaced as {}", id, other.kind()))),
+        }
+        calls += 4;
+    }
+    Ok(calls)
+}
+
+pub fn return_cases() -> Vec<(usize, bool, usize, bool)> {
+    let mut v = vec![];
+    for end in 0..3 {
+        for same_id in [true, false] {
+            for slots in [2usize, 3, 8] {
+                for y_before in [false, true] {
+                    v.push((end, same_id, slots, y_before));
+                }
+            }
+        }
+    }
+    v
+}
+
 pub fn replay(j: &J) -> i32 {
     let tier = match j.get("tier").and_then(|t| t.as_str()) {
         Some("thorough") => Tier::Thorough,
@@ -590,6 +735,22 @@ pub fn replay(j: &J) -> i32 {
         let n = j.get("n").and_then(|x| x.as_i()).unwrap_or(4096) as usize;
         println!("{} half-open sessions on a 4-slot server", n);
         return match pending_scale_case(n) {
+            Err(v) => {
+                println!("RESULT: violation {} — {}", v.signature, v.message);
+                1
+            }
+            Ok(_) => {
+                println!("RESULT: no violation");
+                0
+            }
+        };
+    }
+    if j.get("kind").and_then(|k| k.as_str()) == Some("return") {
+        let cases = return_cases();
+        let i = j.get("case").and_then(|x| x.as_i()).unwrap_or(0) as usize;
+        let Some(c) = cases.get(i) else { return 2 };
+        println!("return case {:?}", c);
+        return match return_case(c.0, c.1, c.2, c.3) {
             Err(v) => {
                 println!("RESULT: violation {} — {}", v.signature, v.message);
                 1
